@@ -672,7 +672,7 @@ func backendNames(rows []FmtNameRow, backend, mode, prefix string, rng *rand.Ran
 					_, _ = tf.Write(e.disk)
 					_, _ = tf.Seek(0, 0)
 					p.Put(ctx, kind, e.hash, int64(len(e.data)), int64(len(e.disk)), tf)
-					waitFor(func() bool { mu.Lock(); defer mu.Unlock(); return len(seen) > 0 }, 5*time.Second)
+					waitFor(func() bool { mu.Lock(); defer mu.Unlock(); return len(seen) > 0 }, 30*time.Second)
 					os.Remove(tf.Name())
 				}
 				cancel()
